@@ -161,7 +161,7 @@ def halfsets(ids):
 # family 1: export in memory
 
 
-INDEX_KINDS = ["default", "offset", "gaps", "reversed", "filtered", "split-piece"]
+INDEX_KINDS = ["default", "offset", "gaps", "reversed", "filtered", "split-piece", "columns-reversed", "columns-rotated"]
 
 
 def indexed_frame(rows, kind, obs):
@@ -191,6 +191,10 @@ def indexed_frame(rows, kind, obs):
             raise HarnessError(f"split_by_feature returned {len(pieces)} pieces, {len(mine)} with the marker")
         return mine[0].df
     df = frame(rows)
+    if kind == "columns-reversed":      # a valid particle table holds the 20 fields in ANY column order
+        return df[list(df.columns[::-1])]
+    if kind == "columns-rotated":
+        return df[list(df.columns[7:]) + list(df.columns[:7])]
     if kind == "offset":
         df.index = list(range(1, n + 1))
     elif kind == "gaps":
@@ -327,8 +331,8 @@ def judge_motl(obs, site, stage, cls, m, rows, approx, updated, f32=False):
 
 WRITERS = [  # (writer, input / history variant)
     ("StopgapMotl.write_out", "none"), ("StopgapMotl.write_out", "rm-first"), ("StopgapMotl.write_out", "rm-middle"),
-    ("StopgapMotl.write_out", "rm-last"),
-    ("emmotl2stopgap", "df"), ("emmotl2stopgap", "EmMotl"), ("emmotl2stopgap", "em-file"),
+    ("StopgapMotl.write_out", "rm-last"), ("StopgapMotl.write_out", "columns-rotated"), ("StopgapMotl.write_out", "zero-shifts"),
+    ("emmotl2stopgap", "df-zero-shifts"), ("emmotl2stopgap", "df"), ("emmotl2stopgap", "EmMotl"), ("emmotl2stopgap", "em-file"),
     ("Motl.write_out(stopgap)", "none"),
 ]
 LOADERS = ["StopgapMotl(path)", "Motl.load(path,'stopgap')", "stopgap2emmotl(path)"]
@@ -388,14 +392,22 @@ def execute_file(case, obs):
 
     ids, (writer, variant), update, reset, loader, seed = case
     rows = make_rows(ids, seed)
+    if variant.endswith("zero-shifts"):
+        # fractional positions with all three shifts exactly 0 on every particle: update_coord must still round them
+        for row in rows:
+            for _xf, sf in AXES:
+                row[sf] = 0.0
     n = len(rows)
     f32 = variant == "em-file"
     cls = "default-index"
     path = "c04_out.star"
     obs.nontrivial = n > 1 or update or reset or variant not in ("none", "df")
     if writer == "StopgapMotl.write_out":
-        if variant == "none":
+        if variant in ("none", "zero-shifts"):
             m = obs.lib("StopgapMotl(df)", cm.StopgapMotl, frame(rows))
+        elif variant == "columns-rotated":
+            df0 = frame(rows)
+            m = obs.lib("StopgapMotl(df)", cm.StopgapMotl, df0[list(df0.columns[7:]) + list(df0.columns[:7])])
         else:
             pos = {"rm-first": 0, "rm-middle": (n + 1) // 2, "rm-last": n}[variant]
             extra = make_row(50, 1000, seed)
@@ -409,7 +421,7 @@ def execute_file(case, obs):
         m = obs.lib("Motl.__init__", cm.Motl, frame(rows))
         obs.lib(writer, m.write_out, path, "stopgap")
     else:
-        if variant == "df":
+        if variant in ("df", "df-zero-shifts"):
             src = frame(rows)
         elif variant == "EmMotl":
             src = obs.lib("EmMotl.__init__", cm.EmMotl, frame(rows))
